@@ -3,6 +3,8 @@ package harness
 // Model "txfee" (C08): fee accounting of ONE transaction.  Every op line is one really signed
 // transaction run through the REAL app: state is prepared in the block being built, the block
 // is committed, the tx goes through `CheckTx` (mempool admission, on the committed state) and
+// then — for ops with `re=1` — a block without the tx is committed that changes the msgfees
+// params / schedule and the tx goes through `CheckTx(Recheck)` on the newly committed state, and
 // then through `FinalizeBlock` (ante chain, PioMsgServiceRouter, MsgFeeInvoker).  The output is
 // the result class of both and the balance deltas of every account involved.
 
@@ -135,6 +137,14 @@ type txfeeOp struct {
 	force   bool
 	body    []string
 	rawBody string
+	// re: the transaction's life spans a committed change of the fee configuration:
+	// CheckTx(New) under floor/conv/sched, then a block WITHOUT the tx is committed that sets
+	// floor2/conv2/sched2, then CheckTx(Recheck), then execution under the new configuration.
+	re     bool
+	floor2 sdk.Coin
+	convD2 string
+	convR2 uint64
+	sched2 []txfeeSched
 }
 
 func txfeeCoins(s string) (sdk.Coins, error) {
@@ -163,6 +173,34 @@ func txfeeCoin(s string) (sdk.Coin, error) {
 	return sdk.Coin{Denom: s[i:], Amount: mustInt(s[:i])}, nil
 }
 
+func txfeeParseSched(s string) ([]txfeeSched, error) {
+	var out []txfeeSched
+	if s == "-" || s == "" {
+		return nil, nil
+	}
+	for _, ent := range strings.Split(s, "|") {
+		f := strings.Split(ent, ":")
+		if len(f) != 4 {
+			return nil, fmt.Errorf("bad sched entry %q", ent)
+		}
+		c, err := txfeeCoin(f[1])
+		if err != nil {
+			return nil, err
+		}
+		b, _ := strconv.ParseUint(f[3], 10, 32)
+		out = append(out, txfeeSched{typ: f[0], fee: c, rcp: f[2], bips: uint32(b)})
+	}
+	return out, nil
+}
+
+func txfeeSchedStr(sc []txfeeSched) string {
+	var out []string
+	for _, s := range sc {
+		out = append(out, fmt.Sprintf("%s:%s:%s:%d", s.typ, s.fee.Amount.String()+s.fee.Denom, s.rcp, s.bips))
+	}
+	return JoinOr(out, "|")
+}
+
 func txfeeParse(line string) (*txfeeOp, error) {
 	ws := strings.Fields(line)
 	if len(ws) == 0 || ws[0] != "tx" {
@@ -179,18 +217,22 @@ func txfeeParse(line string) (*txfeeOp, error) {
 	}
 	op.convD = cv[0]
 	op.convR, _ = strconv.ParseUint(cv[1], 10, 64)
-	if s := kvArg(ws, "sched"); s != "-" && s != "" {
-		for _, ent := range strings.Split(s, "|") {
-			f := strings.Split(ent, ":")
-			if len(f) != 4 {
-				return nil, fmt.Errorf("bad sched entry %q", ent)
-			}
-			c, err := txfeeCoin(f[1])
-			if err != nil {
-				return nil, err
-			}
-			b, _ := strconv.ParseUint(f[3], 10, 32)
-			op.sched = append(op.sched, txfeeSched{typ: f[0], fee: c, rcp: f[2], bips: uint32(b)})
+	if op.sched, err = txfeeParseSched(kvArg(ws, "sched")); err != nil {
+		return nil, err
+	}
+	if kvArg(ws, "re") == "1" {
+		op.re = true
+		if op.floor2, err = txfeeCoin(kvArg(ws, "floor2")); err != nil {
+			return nil, err
+		}
+		cv2 := strings.Split(kvArg(ws, "conv2"), ":")
+		if len(cv2) != 2 {
+			return nil, fmt.Errorf("bad conv2")
+		}
+		op.convD2 = cv2[0]
+		op.convR2, _ = strconv.ParseUint(cv2[1], 10, 64)
+		if op.sched2, err = txfeeParseSched(kvArg(ws, "sched2")); err != nil {
+			return nil, err
 		}
 	}
 	op.payfee = kvArg(ws, "payfee")
@@ -215,19 +257,19 @@ func txfeeParse(line string) (*txfeeOp, error) {
 
 // line renders the op without the observed field.
 func (op *txfeeOp) line() string {
-	var sc []string
-	for _, s := range op.sched {
-		sc = append(sc, fmt.Sprintf("%s:%s:%s:%d", s.typ, s.fee.Amount.String()+s.fee.Denom, s.rcp, s.bips))
-	}
 	b := func(x bool) string {
 		if x {
 			return "1"
 		}
 		return "0"
 	}
-	return fmt.Sprintf("tx floor=%s conv=%s:%d sched=%s payfee=%s fee=%s gas=%d balP=%s balG=%s balX=%s fg=%s allow=%s auth=%s sig=%s force=%s body=%s",
-		op.floor.Amount.String()+op.floor.Denom, op.convD, op.convR, JoinOr(sc, "|"), op.payfee, txfeeCoinsStr(op.fee), op.gas,
+	l := fmt.Sprintf("tx floor=%s conv=%s:%d sched=%s payfee=%s fee=%s gas=%d balP=%s balG=%s balX=%s fg=%s allow=%s auth=%s sig=%s force=%s body=%s",
+		op.floor.Amount.String()+op.floor.Denom, op.convD, op.convR, txfeeSchedStr(op.sched), op.payfee, txfeeCoinsStr(op.fee), op.gas,
 		txfeeCoinsStr(op.bal["P"]), txfeeCoinsStr(op.bal["G"]), txfeeCoinsStr(op.bal["X"]), b(op.fg), op.allow, b(op.auth), op.sig, b(op.force), op.rawBody)
+	if op.re {
+		l += fmt.Sprintf(" re=1 floor2=%s conv2=%s:%d sched2=%s", op.floor2.Amount.String()+op.floor2.Denom, op.convD2, op.convR2, txfeeSchedStr(op.sched2))
+	}
+	return l
 }
 
 // txfeeCoinsStr keeps the given order (the declared fee is sorted by the generator).
@@ -300,22 +342,7 @@ func (e *txfeeEnv) prepare(op *txfeeOp, k *txfeeKeys) {
 	}
 	e.fund(ctx, k.addr["P"], sdk.NewCoins(sdk.NewInt64Coin(txfeePayDenom, 1000)))
 	// msgfees params + schedule
-	a.MsgFeesKeeper.SetParams(ctx, msgfeestypes.Params{FloorGasPrice: op.floor, NhashPerUsdMil: op.convR, ConversionFeeDenom: op.convD})
-	for _, u := range e.sched {
-		_ = a.MsgFeesKeeper.RemoveMsgFee(ctx, u)
-	}
-	e.sched = nil
-	for _, s := range op.sched {
-		rcp := ""
-		if s.rcp != "-" {
-			rcp = k.addr[s.rcp].String()
-		}
-		u := txfeeTypeURL[s.typ]
-		if err := a.MsgFeesKeeper.SetMsgFee(ctx, msgfeestypes.NewMsgFee(u, s.fee, rcp, s.bips)); err != nil {
-			e.t.Fatalf("SetMsgFee: %v", err)
-		}
-		e.sched = append(e.sched, u)
-	}
+	e.setFeeCfg(ctx, k, op.floor, op.convD, op.convR, op.sched)
 	// exchange payment fee
 	xp := a.ExchangeKeeper.GetParams(ctx)
 	if xp == nil {
@@ -353,6 +380,28 @@ func (e *txfeeEnv) prepare(op *txfeeOp, k *txfeeKeys) {
 	// FinalizeBlock already flushed the block state into the commit store (workingHash); flush
 	// what was written since, so that Commit persists it.
 	ctx.MultiStore().(storetypes.CacheMultiStore).Write()
+}
+
+// setFeeCfg writes msgfees params and the message-fee schedule (what a passed governance
+// proposal does) into the block being built.
+func (e *txfeeEnv) setFeeCfg(ctx sdk.Context, k *txfeeKeys, floor sdk.Coin, convD string, convR uint64, sched []txfeeSched) {
+	a := e.app
+	a.MsgFeesKeeper.SetParams(ctx, msgfeestypes.Params{FloorGasPrice: floor, NhashPerUsdMil: convR, ConversionFeeDenom: convD})
+	for _, u := range e.sched {
+		_ = a.MsgFeesKeeper.RemoveMsgFee(ctx, u)
+	}
+	e.sched = nil
+	for _, s := range sched {
+		rcp := ""
+		if s.rcp != "-" {
+			rcp = k.addr[s.rcp].String()
+		}
+		u := txfeeTypeURL[s.typ]
+		if err := a.MsgFeesKeeper.SetMsgFee(ctx, msgfeestypes.NewMsgFee(u, s.fee, rcp, s.bips)); err != nil {
+			e.t.Fatalf("SetMsgFee: %v", err)
+		}
+		e.sched = append(e.sched, u)
+	}
 }
 
 // buildMsgs turns body tokens into sdk.Msgs (exec( … ) nest).
@@ -536,6 +585,30 @@ func (e *txfeeEnv) run(op *txfeeOp) (obs string, outp string) {
 	}
 	cchg := txfeeDelta(ca["P"], cb["P"]) + "/" + txfeeDelta(ca["G"], cb["G"])
 	admitted := cres.Code == 0
+	// a committed block (without the tx) changes the fee configuration; CometBFT then rechecks
+	// every transaction still in its mempool on the committed state
+	recheck, rchg, obsR := "skip", "-/-", ""
+	if op.re && admitted {
+		e.finalize(nil)
+		ctx2 := e.dctx()
+		e.setFeeCfg(ctx2, k, op.floor2, op.convD2, op.convR2, op.sched2)
+		ctx2.MultiStore().(storetypes.CacheMultiStore).Write()
+		if _, err := e.app.Commit(); err != nil {
+			e.t.Fatalf("Commit: %v", err)
+		}
+		rb := e.balances(e.cctx(), k)
+		rres, err := e.app.CheckTx(&abci.RequestCheckTx{Tx: txb, Type: abci.CheckTxType_Recheck})
+		if err != nil {
+			e.t.Fatalf("CheckTx(Recheck): %v", err)
+		}
+		ra := e.balances(e.cctx(), k)
+		recheck = txfeeClass(rres.Codespace, rres.Code)
+		if recheck == "oog" {
+			obsR = "g"
+		}
+		rchg = txfeeDelta(ra["P"], rb["P"]) + "/" + txfeeDelta(ra["G"], rb["G"])
+		admitted = rres.Code == 0
+	}
 	deliver := admitted || op.force
 	var txs [][]byte
 	if deliver {
@@ -582,11 +655,11 @@ func (e *txfeeEnv) run(op *txfeeOp) (obs string, outp string) {
 	}
 	before := map[string]sdk.Coins{"P": sdk.NewCoins(op.bal["P"]...), "G": sdk.NewCoins(op.bal["G"]...), "X": sdk.NewCoins(op.bal["X"]...)}
 	var sb strings.Builder
-	fmt.Fprintf(&sb, "check=%s cchg=%s deliver=%s seq=%d allow=%s", check, cchg, dres, seq, allow)
+	fmt.Fprintf(&sb, "check=%s cchg=%s recheck=%s rchg=%s deliver=%s seq=%d allow=%s", check, cchg, recheck, rchg, dres, seq, allow)
 	for _, r := range []string{"P", "G", "X", "Q", "R1", "R2", "C"} {
 		fmt.Fprintf(&sb, " %s=%s", r, txfeeDelta(after[r], before[r]))
 	}
-	return obsC + obsD, sb.String()
+	return obsC + obsD + obsR, sb.String()
 }
 
 // signTxNoCtx signs without needing a finalize-state context.
@@ -640,7 +713,7 @@ func (e *txfeeEnv) emit(out *Out, op *txfeeOp) {
 	}
 	out.Emit(op.line()+" obs="+obs, res)
 	for _, w := range strings.Fields(res) {
-		if strings.HasPrefix(w, "check=") || strings.HasPrefix(w, "deliver=") {
+		if strings.HasPrefix(w, "check=") || strings.HasPrefix(w, "deliver=") || strings.HasPrefix(w, "recheck=") {
 			out.Count(w)
 		}
 	}
